@@ -6,6 +6,7 @@ from __future__ import annotations
 import re
 
 import ipaddress
+import random
 
 import someip.config as C
 import someip.header as H
@@ -103,7 +104,14 @@ class Scenario:
         for _ in range(n):
             sid, iid, maj, mi = rng.choice(SERVICES)
             ttl = 0 if (kind == "stop" or rng.random() < 0.25) else rng.choice(self.ttls)
-            entries.append(C.Service(sid, iid, maj, mi).create_offer_entry(ttl))
+            # the options of an offer are not part of the identity of the service: the same service is offered, refreshed
+            # and withdrawn with varying endpoint / configuration options (a separate deterministic stream of choices, so
+            # that the main stream of the scenario is what it was before options were added; found missing by the
+            # mutation sweep: `compare=False` of Service.options_1 flipped)
+            orng = random.Random(len(self.rec.items) * 7919 + p.n * 131 + sid)
+            o1 = () if orng.random() < 0.4 else (endpoint(p.n, 30000 + orng.randrange(2)),)
+            o2 = (H.SOMEIPSDConfigOption(configs=(("k", "v%d" % orng.randrange(2)),)),) if orng.random() < 0.2 else ()
+            entries.append(C.Service(sid, iid, maj, mi, options_1=o1, options_2=o2).create_offer_entry(ttl))
             info.append(("offer", (sid, iid, maj, mi), ttl))
         reboot = kind == "reboot" or rng.random() < 0.08
         if kind == "reboot" and rng.random() < 0.4:
